@@ -69,6 +69,9 @@ def _tokenizable_description(description):
     return _QUOTED_TEXT_OR_ELLIPSIS_REGEX.sub(lambda match: match.group(1) or ":", description)
 
 
+_HEX_NUMBER_REGEX = re.compile(r"^0[xX][0-9a-fA-F]+$")
+
+
 def code_for_number_token(name, value, location):
     """
     The numeric code for text representing an :py:class:`int` in ``value``.
@@ -84,9 +87,11 @@ def code_for_number_token(name, value, location):
         if value.isascii() and value.isdigit():
             # Note: base 0 refuses decimal numbers with leading zeros like "01".
             result = int(value)
+        elif _HEX_NUMBER_REGEX.match(value) is not None:
+            result = int(value, 16)
         else:
-            # Note: base 0 automatically handles prefixes like 0x.
-            result = int(value, 0)
+            # Refuse other notations Python would accept, for example "0o17", "0b11" or "1_0".
+            raise ValueError("number must be decimal or hexadecimal: %r" % value)
         # Ensure that the number can be shown in messages. Python refuses to convert integers
         # with several thousand digits to text, which for example can be reached using hex numbers.
         str(result)
